@@ -237,4 +237,243 @@ def extra_checks(rng, tier, g, info):
     info["threaded_ops"] = total
 
 
+# ---------------------------------------------------------------------------------------------------------------
+# schedules: contended shared nodes, and systematic single-preemption exploration
+
+class _Preempt:
+    """Runs operation A in a thread under sys.settrace and suspends it at the `point`-th source line it executes inside
+    the package; operation B then runs to completion in a second thread on the SAME objects; then A resumes.  This
+    enumerates, deterministically, every schedule with one preemption at line granularity (no library code is
+    patched)."""
+
+    def __init__(self, point, max_visits=2):
+        self.max_visits = max_visits
+        self.point, self.count, self.fired = point, 0, False
+        self.visits = {}        # a source line is a preemption point the first max_visits times it runs (loops are not unrolled)
+        self.go_b, self.b_done = threading.Event(), threading.Event()
+
+    def tracer(self, frame, event, arg):
+        if self.fired or "btc_hd_wallet" not in frame.f_code.co_filename:
+            return None
+        return self.local
+
+    def local(self, frame, event, arg):
+        if self.fired:
+            return None
+        if event == "line":
+            key = (frame.f_code.co_filename, frame.f_lineno)
+            v = self.visits.get(key, 0)
+            self.visits[key] = v + 1
+            if v >= self.max_visits:
+                return self.local
+            self.count += 1
+            if self.count == self.point and not self.fired:
+                self.fired = True
+                sys.settrace(None)          # nothing left to observe: run the rest of A at full speed
+                self.go_b.set()
+                self.b_done.wait(60)
+                return None
+        return self.local
+
+    def run(self, op_a, op_b):
+        res = [None, None]
+
+        def ta():
+            sys.settrace(self.tracer)
+            try:
+                res[0] = _safe(op_a)
+            finally:
+                sys.settrace(None)
+                self.go_b.set()
+
+        def tb():
+            self.go_b.wait(60)
+            try:
+                res[1] = _safe(op_b)
+            finally:
+                self.b_done.set()
+        a, b = threading.Thread(target=ta), threading.Thread(target=tb)
+        a.start()
+        b.start()
+        a.join()
+        b.join()
+        return res
+
+
+def _safe(f):
+    try:
+        return f()
+    except Exception as e:      # an exception is an answer too (compared with the sequential one)
+        return "err"
+
+
+def _scenarios(rng):
+    """(name, build() -> shared objects, opA(shared), opB(shared)); results are canonical strings"""
+    ent = bytes(rng.getrandbits(8) for _ in range(16)).hex()
+    t = rng.choice("01")
+    spec = "ent:%s:-:-:%s" % (sx(ent), t)
+    i, j = rng.sample([0, 1, 2, 5, 6, 77, 2 ** 31 - 1], 2)
+
+    def chain():
+        w = impl.make_wallet(spec)
+        return w, w.by_path("m/84'/0'/0'/0")
+
+    def pub():
+        from btc_hd_wallet.bip32 import PubKeyNode
+        w, x = chain()
+        return w, PubKeyNode.parse(x.extended_public_key(), testnet=(t == "1"))
+
+    def wal():
+        w = impl.make_wallet(spec)
+        return w, w.master
+    yield ("prv-node ckd(%d) || ckd(%d)" % (i, j), chain,
+           lambda s: impl.nodeS(s[1].ckd(i)), lambda s: impl.nodeS(s[1].ckd(j)))
+    yield ("prv-node ckd(%d) || ckd(hardened)" % i, chain,
+           lambda s: impl.nodeS(s[1].ckd(i)), lambda s: impl.nodeS(s[1].ckd(H + j % 1000)))
+    yield ("pub-node ckd(%d) || ckd(%d)" % (i, j), pub,
+           lambda s: impl.nodeS(s[1].ckd(i)), lambda s: impl.nodeS(s[1].ckd(j)))
+    yield ("wallet by_path || by_path", wal,
+           lambda s: impl.nodeS(s[0].by_path("m/44'/0'/0'/0/%d" % (i % 1000))),
+           lambda s: impl.nodeS(s[0].by_path("m/44'/0'/0'/1/%d" % (j % 1000))))
+    yield ("wallet bip85.wif || bip85.hex", wal,
+           lambda s: s[0].bip85.wif(i % 1000), lambda s: s[0].bip85.hex(32, j % 1000))
+    yield ("prv-node address(ckd) || generate_children", chain,
+           lambda s: s[0].p2wpkh_address(s[1].ckd(i)),
+           lambda s: " ".join(impl.nodeS(c) for c in s[1].generate_children((j % 1000, j % 1000 + 2))))
+    yield ("master ckd(normal) || derive_path", wal,
+           lambda s: impl.nodeS(s[1].ckd(i)), lambda s: impl.nodeS(s[1].derive_path([j, H + 1])))
+
+
+def explore_preemptions(rng, tier, info):
+    budget = 400 if tier == "quick" else 4000       # preemption points per scenario
+    runs = 0
+    for name, build, op_a, op_b in _scenarios(rng):
+        want = [_safe(lambda: op_a(build())), _safe(lambda: op_b(build()))]      # sequential, fresh objects
+        mv = 1 if tier == "quick" else 2     # quick: every distinct source line once; thorough: also its first repetition
+        probe = _Preempt(-1, mv)
+        sh = build()
+        probe.run(lambda: op_a(sh), lambda: op_b(sh))
+        total = probe.count
+        pts = range(1, total + 1) if total <= budget else sorted(set(
+            list(range(1, 8)) + [1 + (k * (total - 1)) // (budget - 8) for k in range(budget - 7)]))
+        for n_, pt in enumerate(pts):
+            if n_ % 20 == 0:        # objects are rebuilt now and then only: an answer that depends on the earlier
+                sh = build()        # schedules run on the same objects is a violation of this property as well
+            got = _Preempt(pt, mv).run(lambda: op_a(sh), lambda: op_b(sh))
+            runs += 1
+            if got != want:
+                yield ("# schedule: %s, thread A suspended at its source line no. %d of %d inside the package while "
+                       "thread B ran" % (name, pt, total),
+                       "results under this interleaving differ from the sequential ones: %s vs %s" % (
+                           [str(x)[:70] for x in got], [str(x)[:70] for x in want]))
+                break
+    info["preemption_schedules_explored"] = runs
+
+
+def contended_nodes(rng, tier, info):
+    """several threads derive DIFFERENT children from the SAME node objects at once (tiny switch interval)"""
+    rounds = 2 if tier == "quick" else 12
+    per = 120 if tier == "quick" else 600
+    nthreads = 4
+    done = 0
+    old = sys.getswitchinterval()
+    sys.setswitchinterval(1e-6)
+    try:
+        for _ in range(rounds):
+            ent = bytes(rng.getrandbits(8) for _ in range(16)).hex()
+            spec = "ent:%s:-:-:%s" % (sx(ent), rng.choice("01"))
+            w = impl.make_wallet(spec)
+            from btc_hd_wallet.bip32 import PubKeyNode
+            x = w.by_path("m/84'/0'/0'/0")
+            nodes = [w.master, x, PubKeyNode.parse(x.extended_public_key(), testnet=w.testnet)]
+            idx = [[rng.choice([rng.randrange(0, 1000), rng.randrange(0, 2 ** 31)]) for _ in range(per)]
+                   for _ in range(nthreads)]
+            outs = [[None] * per for _ in range(nthreads)]
+            barrier = threading.Barrier(nthreads)
+
+            def work(ti):
+                barrier.wait()
+                for k, i in enumerate(idx[ti]):
+                    nd = nodes[(k + ti) % len(nodes)]
+                    outs[ti][k] = _safe(lambda: impl.nodeS(nd.ckd(i)))
+            ts = [threading.Thread(target=work, args=(ti,)) for ti in range(nthreads)]
+            for t_ in ts:
+                t_.start()
+            for t_ in ts:
+                t_.join()
+            fw = impl.make_wallet(spec)
+            fx = fw.by_path("m/84'/0'/0'/0")
+            fresh = [fw.master, fx, PubKeyNode.parse(fx.extended_public_key(), testnet=fw.testnet)]
+            for ti in range(nthreads):
+                for k, i in enumerate(idx[ti]):
+                    done += 1
+                    want = _safe(lambda: impl.nodeS(fresh[(k + ti) % len(fresh)].ckd(i)))
+                    if outs[ti][k] != want:
+                        yield ("# %d threads deriving different children from one shared node object (wallet %s), "
+                               "thread %d request %d: ckd(%d)" % (nthreads, spec, ti, k, i),
+                               "answered differently under concurrency: %s vs %s" % (outs[ti][k][:80], want[:80]))
+                        return
+    finally:
+        sys.setswitchinterval(old)
+        info["contended_node_derivations"] = done
+
+
+def soak(rng, tier, info):
+    """a long-lived node: S distinct children derived under ONE node object (private and public), then earlier
+    requests repeated — through ckd, derive_path, by_path and the wallet's address calls — and compared with fresh
+    objects.  S exceeds every small integer literal of the source (common.soak_size)."""
+    S = common.soak_size(PID, tier)
+    ent = bytes(rng.getrandbits(8) for _ in range(16)).hex()
+    spec = "ent:%s:-:-:%s" % (sx(ent), rng.choice("01"))
+    from btc_hd_wallet.bip32 import PubKeyNode
+    n = 0
+    for kind in ("prv", "pub"):
+        w = impl.make_wallet(spec)
+        x = w.by_path("m/84'/0'/0'/0")
+        if kind == "pub":
+            x = PubKeyNode.parse(x.extended_public_key(), testnet=w.testnet)
+        first = {}
+        probe = sorted(set([0, 1, 2, 5, 7, S // 2, S - 1] + [v for v in (255, 256, 1023, 1024, 2047, 2048, 4095, 4096)
+                                                             if v < S] + [rng.randrange(S) for _ in range(12)]))
+        for i in range(S):
+            c = x.ckd(i)
+            n += 1
+            if i in probe:
+                first[i] = impl.nodeS(c)
+        fw = impl.make_wallet(spec)
+        fx = fw.by_path("m/84'/0'/0'/0")
+        if kind == "pub":
+            fx = PubKeyNode.parse(fx.extended_public_key(), testnet=fw.testnet)
+        for i in probe:
+            want = impl.nodeS(fx.ckd(i))
+            again = impl.nodeS(x.ckd(i))
+            viadp = impl.nodeS(x.derive_path([i]))
+            if not (first[i] == want == again == viadp):
+                yield ("# soak: %d children derived under one %s node object of wallet %s, then index %d requested again"
+                       % (S, kind, spec, i),
+                       "child %d differs from the stateless answer (first %s / repeated %s / derive_path %s / fresh %s)"
+                       % (i, first[i][5:40], again[5:40], viadp[5:40], want[5:40]))
+                break
+        if kind == "prv":
+            for i in probe[:6]:
+                a = impl.nodeS(w.by_path("m/84'/0'/0'/0/%d" % i))
+                b = impl.nodeS(fw.by_path("m/84'/0'/0'/0/%d" % i))
+                if a != b:
+                    yield ("# soak: by_path after %d derivations on wallet %s" % (S, spec),
+                           "by_path(.../%d) differs from a fresh wallet" % i)
+                    break
+    info["soak_children_per_node"] = S
+    info["soak_derivations"] = n
+
+
+_threaded_histories = extra_checks
+
+
+def extra_checks(rng, tier, g, info):       # noqa: F811
+    yield from _threaded_histories(rng, tier, g, info)
+    yield from contended_nodes(rng, tier, info)
+    yield from explore_preemptions(rng, tier, info)
+    yield from soak(rng, tier, info)
+
+
 known_match = common.no_known
